@@ -12,7 +12,7 @@ COQ_CASE_TYPE = "case16"
 SHARD = 60
 RULE = ("the client runs against an interactive fake board (python) whose every reply is re-derived from Spec/Board.v inside Coq; "
         "int32 values {0, +-1, +-2^31 edge, byte boundaries, random} x slots 0..28 written then read back; nicknames with surrounding blanks and with leading Q / T / comma characters (systematic list + random); "
-        "all 36 clamped (r1, r2) requests (and out-of-range arguments) from all 20 prior board motor states, systematically, and random sequences of 3..12 such operations; "
+        "all 36 clamped (r1, r2) requests (and out-of-range arguments) from all 20 prior board motor states, systematically, runs of 3..5 motor requests on one object (every ordered pair of different scales as: scale a, then motor 2 only at b, then motor 2 only at a), and random sequences of 3..12 such operations; "
         "non-trivial = a motors_enable request from an enabled prior state, or an int32 with a non-zero high byte")
 TRUSTED = ["the EBB board model Spec/Board.v (SL/QL/ST/QT/EM/QE/CU as documented in the repository's docstrings): assumed, no firmware source offline",
            "the python fake board is validated against Spec/Board.v on every run (code 4 on any difference)"]
@@ -92,6 +92,20 @@ def generate(rng, tier):
             if (si + ri) % step: continue
             bd = _board(rng); bd.update(en1=e1, en2=e2, mode=m)
             cases.append({"board": bd, "calls": [("motors_on", a, b), ("motors_query",)], "family": "motors/systematic"})
+    # runs of 3..5 motor requests on one object, each followed by the read-back: whatever the object remembers of its earlier requests
+    # (and of what the board told it) must not change the outcome of a later one; single-motor requests dominate
+    single = [(a, 0) for a in range(1, 6)] + [(0, b) for b in range(1, 6)]
+    pairs = [(a, b) for a in range(1, 6) for b in range(1, 6) if a != b]
+    for (a, b) in pairs[:: (1 if tier != "quick" else 2)]:
+        first = rng.choice([(a, a), (a, 0), (a, rng.randint(1, 5))])
+        mid = [rng.choice([(0, 0), (0, b)])] if rng.random() < 0.4 else []
+        seq = [first, (0, b)] + mid + [(0, a)]
+        cases.append({"board": _board(rng), "calls": sum([[("motors_on",) + r, ("motors_query",)] for r in seq], []), "family": "motors/runs-of-requests"})
+    for _ in range(30 if tier == "quick" else 3000):
+        seq = [rng.choice(single + single + [(rng.randint(0, 5), rng.randint(0, 5))]) for _ in range(rng.randint(3, 5))]
+        calls = sum([[("motors_on",) + r, ("motors_query",)] for r in seq], [])
+        if rng.random() < 0.2: calls.insert(rng.randrange(len(calls)), ("motors_off",))
+        cases.append({"board": _board(rng), "calls": calls, "family": "motors/runs-of-requests"})
     for nk in NICKS:
         cases.append({"board": _board(rng), "calls": [("write_nick", nk), ("query_nick",), ("query", "QT"), ("query_nick",)], "family": "nickname/systematic"})
     n = 150 if tier == "quick" else 9000
